@@ -151,6 +151,25 @@ def unit_for(mmap, mutable=False):
     m.raises("IndexError", when="self.file != None and not (-len(self._lines) <= selector and selector < len(self._lines))")
     m.modifies(*H)
     m.ensures("result == " + Vf("ite(selector < 0, selector + len(self._lines), selector)"), "f[i]=i-th-line-without-terminator(negative-i-from-the-end)")
+    # the same method with a sequence of indices as selector (f[[2, 0, -1]]): verified as a second typing of the parameter; the list
+    # comprehension over the stateful _get_item is executed as the loop it abbreviates
+    nrm = lambda e: "ite(%s < 0, %s + len(self._lines), %s)" % (e, e, e)
+    inr = lambda e: "(-len(self._lines) <= %s and %s < len(self._lines))" % (e, e)
+    mv = B.method_variant("__getitem__", "indices", {"selector": SeqS(INT)}, SeqS(STR), locals={"iter_over": SeqS(INT), "i": INT})
+    mv.raises("RuntimeError", when="self.file == None")
+    mv.raises("IndexError", when="self.file != None and exists(j, 0, len(selector), not %s)" % inr("selector[j]"), ensures=["self.file != None"])
+    mv.modifies(*H)
+    mv.ensures(own, "handles-are-the-old-ones-or-newly-opened")
+    mv.ensures("len(result) == len(selector) and forall(j, 0, len(selector), result[j] == %s, trigger=result[j])" % Vf(nrm("selector[j]")),
+               "f[indices]=the-selected-lines-in-the-order-of-the-indices")
+    lc = mv.comprehension(1, elem=STR).with_class_invariant()
+    lc.invariant("self.file != None and same(self._lines, old(self._lines)) and same(self.jidx, old(self.jidx)) and self.path_to == old(self.path_to)"
+                 " and same(_seqc1, selector)")
+    lc.invariant(own)
+    lc.invariant("forall(hh, implies(old(alive(hh)) and hh != None and hh != old(self.file)%s, hh.pos == old(hh.pos) and hh.closed == old(hh.closed)))"
+                 % (" and hh != old(self.mm)" if mmap else ""), "other-handles-untouched")
+    lc.invariant("len(_acc1) == _ic1 and forall(j, 0, _ic1, %s and _acc1[j] == %s, trigger=_acc1[j])" % (inr("selector[j]"), Vf(nrm("selector[j]"))),
+                 "collected-so-far=the-selected-lines")
     m = B.method("__len__", {}, INT)
     m.ensures("result == len(self._lines)")
     m = B.method("__iter__", {}, yields=STR)
@@ -184,6 +203,7 @@ def finish(U, C, cls, mmap):
         targets.insert(2, ("MemoryMappedRandomLineAccessFile", "__init__", None))
     for c, f, conc in targets:
         U.verify(c, f, conc)
+    U.verify("BaseRandomLineAccessFile", "__getitem__", cls, variant="indices")
     U.assume("file model at line granularity (DESIGN §4): readline at a line start returns that line and moves to the next line start; "
              "text mode with newline='\\n' and binary/mmap split on '\\n' only; universal-newlines text mode only for lines without '\\r'")
     U.assume("os.getpid() is constant within a call; a handle's owner is the pid that opened it")
